@@ -15,6 +15,18 @@ def run(res):
                        "screen content, overlays, intra-only, rate control) x decoder pipeline bit depth; every output picture compared")
     res.assumptions += ["no independent ENCODER is available offline, so only tools the SVT encoder emits are exercised",
                         "libaom 3.6.0 runtime library is the reference decoder"]
+    # the decoder's picture-buffer manager (DecDpb.tla): every sequence of refresh sets / show-existing frames a valid stream can
+    # carry (3 slots, 5 buffers): exact reference counts, free iff unreferenced, no slot on a free buffer, a new frame never takes a
+    # referenced buffer, the pool never runs dry; with as many buffers as slots it does (guard); all buffers get used (witness)
+    r = vlib.tlc("DecDpb", "DecDpb.cfg", workers=4, timeout=900)
+    res.tlc_stats(r)
+    res.case("tlc:DecDpb.cfg")
+    if not r["ok"]:
+        res.violation("DecDpb model violates %s" % r["violated"], r["out"][-4000:])
+    for cfg, inv in (("DecDpb_small.cfg", "NoBad"), ("DecDpb_wit.cfg", "NeverAllBusy")):
+        g = vlib.tlc("DecDpb", cfg, workers=4, timeout=900)
+        if g["ok"] or g["violated"] != inv:
+            raise vlib.ModelFailure("DecDpb guard %s: expected a violation of %s" % (cfg, inv))
     rng = random.Random(res.seed * 61 + 12)
     cs = []
 
@@ -58,8 +70,13 @@ def run(res):
         if r["rc"] != 0 or not os.path.exists(r["out"] + ".pkts"):
             return None
         c = r["case"]
-        return common.run_dec(r["out"] + ".pkts", r["out"] + ".dec16", ["--svt", "--16bit", "1", "--who", "svt_pipe16", "-w", str(c["w"]), "-h", str(c["h"]),
-                                                                         "--bits", str(c["bits"])], timeout=150)
+        d = common.run_dec(r["out"] + ".pkts", r["out"] + ".dec16", ["--svt", "--16bit", "1", "--who", "svt_pipe16", "-w", str(c["w"]), "-h", str(c["h"]),
+                                                                      "--bits", str(c["bits"]), "--trace", "decdpb", "--trace-out", r["out"] + ".dpb"], timeout=150)
+        d["dpb"] = None
+        if os.path.exists(r["out"] + ".dpb"):
+            d["dpb"] = [{"ev": "Reset", "a": []}] + [{"ev": ev, "a": a} for _, _, _, _, ev, a in vlib.read_trace(r["out"] + ".dpb", "decdpb")]
+            os.unlink(r["out"] + ".dpb")
+        return d
     d16 = common.parallel(second, rs)
     b = corpus.Bundle()
     for r, d2 in zip(rs, d16):
@@ -71,6 +88,10 @@ def run(res):
         if d2:
             oe = oe[:-1] + stream.observe_events(r["desc"], None, d2)[1:]
         b.add("Observe", oe, r["desc"])
+        if d2 and d2.get("dpb") and len(d2["dpb"]) > 1:
+            b.add("DecDpbTrace", d2["dpb"], r["desc"])
+        elif d2 and d2["rc"] == 0:
+            raise vlib.ModelFailure("no picture-buffer events (stream decdpb) recorded: hooks missing? " + r["desc"])
         for d in (r["dec"], d2):
             for e in (d["events"] if d else []):
                 if e["ev"] in ("DecError", "Timeout"):
@@ -90,4 +111,8 @@ def run(res):
         return {"kind": "mismatch", "who": (rej["event"] or {}).get("who"), "film_grain": 1 if s.get("film_grain_denoise_strength") else 0,
                 "bits": hit[0]["case"]["bits"] if hit else 8, "superres_mode": s.get("superres_mode", 0)}
     b.validate(res, "Observe", "C08 SVT decoder = reference decoder", key_fn=kf)
+    # the decoder's picture-buffer manager, step by step with its complete state (DecDpbTrace.tla over DecDpb.tla)
+    res.sample({"dpb_trace_prefix": b.recs.get("DecDpbTrace", [])[:6]})
+    b.validate(res, "DecDpbTrace", "C08 decoder picture-buffer manager (reference counts, slot maps, free list) follows DecDpb.tla",
+               key_fn=lambda rej: {"kind": "dpb", "event": (rej.get("event") or {}).get("ev")})
     corpus.cleanup(rs)
